@@ -204,7 +204,9 @@ def cleanup_spec(read_kind, same_root):
     return spec
 
 
-con = contract("cohdl._compiler.frontend._generate_ir:ConvertInstance.cleanup_unused", PROPS)
+# also a C03 fact: a removed assignment whose target is still read through a slice / bit / typed view leaves the reader with
+# the value of an earlier activation (sequential) or without a driver (concurrent)
+con = contract("cohdl._compiler.frontend._generate_ir:ConvertInstance.cleanup_unused", PROPS + ("C03",))
 for rk in ("whole", "view", "none"):
     for same in (True, False):
         c = Case(f"read-{rk}-{'same' if same else 'other'}-root", [ctx_shape(rk, same)], cleanup_spec(rk, same))
